@@ -69,7 +69,7 @@ def software_receiver(tx, ratio):
     return out
 
 
-def link_run(ratio, nbytes, gap, values=None, rec=None, horizon=None):
+def link_run(ratio, nbytes, gap, values=None, rec=None, horizon=None, lead=0):
     """quick mode: concrete control, symbolic bytes"""
     with quiet():
         s = py4hw.HWSystem()
@@ -86,11 +86,11 @@ def link_run(ratio, nbytes, gap, values=None, rec=None, horizon=None):
             bytes_.append(x)
         else:
             bytes_.append(values['b%d' % k])
-    horizon = horizon or nbytes * (11 * ratio + gap) + 6 * ratio + 20
+    horizon = horizon or nbytes * (11 * ratio + gap) + 6 * ratio + 20 + lead
     tx = []
     delivered = []
     accepted = 0
-    wait = 0
+    wait = lead                     # idle cycles before the first offer: every phase relative to the baud pulse
     w['des_ready'].put(1)
     for t in range(horizon):
         # producer: offer the next byte while any is left and the gap has elapsed
@@ -129,13 +129,14 @@ class DataDependentControl(core.Unsupported):
 
 def quick_task(p, cfg, rec):
     ratio, nbytes, gap = cfg['ratio'], cfg['nbytes'], cfg['gap']
+    lead = cfg.get('lead', 0)
     ctx.simplify_merge = True
     try:
-        delivered, tx, vars_, bytes_, accepted = link_run(ratio, nbytes, gap, rec=rec)
+        delivered, tx, vars_, bytes_, accepted = link_run(ratio, nbytes, gap, rec=rec, lead=lead)
     except DataDependentControl as e:
         # a handshake line depends on the byte values: pick byte values for both outcomes and replay them
         def replay(values):
-            dl, txc, _, bs, acc = link_run(ratio, nbytes, gap, values=values)
+            dl, txc, _, bs, acc = link_run(ratio, nbytes, gap, values=values, lead=lead)
             if dl != bs:
                 return {'sent': bs, 'delivered': dl, 'ratio': ratio, 'gap': gap, 'note': str(e)}
             return None
@@ -149,7 +150,7 @@ def quick_task(p, cfg, rec):
     p.res['transitions'] += len(tx)
 
     def replay(values):
-        dl, txc, _, bs, acc = link_run(ratio, nbytes, gap, values=values)
+        dl, txc, _, bs, acc = link_run(ratio, nbytes, gap, values=values, lead=lead)
         sw = software_receiver([1] + txc, ratio)
         if dl != bs or sw != bs:
             return {'sent': bs, 'delivered': dl, 'software_receiver': [x if not isinstance(x, tuple) else x[0] for x in sw], 'ratio': ratio, 'gap': gap}
@@ -286,6 +287,11 @@ def tasks_for(tier):
             gaps = [0, 3]
         for gap in gaps:
             t.append(('link ratio %d, 3 symbolic bytes, gap %d cycles' % (ratio, gap), quick_task, {'ratio': ratio, 'nbytes': 3, 'gap': gap}))
+    # the first offer at every phase of the bit period (idle cycles before the first byte), bytes back to back afterwards
+    for ratio in ((4, 5, 8) if quick else (4, 5, 6, 7, 8, 12, 16)):
+        for lead in range(1, 2 * ratio + 1):
+            t.append(('link ratio %d, 3 symbolic bytes, gap 0 cycles, first offer after %d idle cycles' % (ratio, lead), quick_task,
+                      {'ratio': ratio, 'nbytes': 3, 'gap': 0, 'lead': lead}))
     for ratio in ((4, 8) if quick else (4, 5, 6, 8, 12, 16)):
         for gap in ((0,) if quick else (0, 1, ratio)):
             for stall in ((ratio, 3 * ratio) if quick and ratio == 4 else (ratio,) if quick else (1, ratio, 3 * ratio)):
